@@ -320,7 +320,7 @@ ITEMS_NOTE = ("the projection (zz_verif.go) is trusted to report the stored repr
 
 
 @check("C16", design_ref="4 C16",
-       technique="TLA+ item algebra (Vars, Size, encodable) as oracle; trace validation of all four observers of random templates and messages",
+       technique="TLC model checking that the specification's variable list is the sequence of names in the printer model's text (lexer model) on a bounded scope; those messages replayed through the real factories, Variables() and String(); TLA+ item algebra (Vars, Size, encodable) as oracle in trace validation of all four observers of random templates and messages",
        text="Items.tla defines the variable list, size and encodability of an item tree declaratively; every recorded Variables(), Size(), "
             "ToBytes() and String() of random templates (variables in every position, nested ellipses) and of messages built on them is "
             "checked by TLC against the representation-level projection: each name once, in the order of the words of the printed form, bytes "
@@ -329,6 +329,20 @@ ITEMS_NOTE = ("the projection (zz_verif.go) is trusted to report the stored repr
 def c16(ck):
     ck.rule.append("random item trees to depth 4 (all 14 formats, list-level variables, array variables, ASCII variables with bounds, "
                    "numbered ellipses) and messages on them; non-trivial = has at least one variable; distinct by projection")
+    # model stage: on every message of MCPrintParse's scope the specification's variable list is the sequence of names the lexer
+    # model finds in the printer model's text, without repetition, and the item has bytes iff that sequence is empty; TLC -> Go: those
+    # messages built with the real factories - the real Variables() is the specification's list and what the real text shows
+    ck.rule.append("model: MCPrintParse/VarsPrinted - Vars(item) = the Variable and Ellipsis tokens of the printed form, in order, no name twice, "
+                   "bytes iff none; TLC -> Go: every 8th (thorough: 16th of a fifteen times larger scope) of those messages built with the real factories")
+    r = ck.model("MCPrintParse", "MCPrintParse", "MCPrintParse_%s.cfg" % ck.tier, timeout=q(ck, 600, 3000))
+    if not r.cases:
+        raise ToolError("MCPrintParse emitted no cases")
+    table = write_cases(ck, r.cases, "ppcases.ndjson")
+    ev = ck.trace("vars-replay", "pp-replay", ["-in", table, "-n", q(ck, 8, 16)], "TraceSml", "TraceSml.cfg", ["InvC16x"],
+                  nontrivial=lambda e: len(e.get("vars", [])) > 0, key=SML_KEY)
+    ck.replayed += len(ev)
+    if ck.violations:
+        return
     ck.trace("snap", "snap", ["-n", q(ck, 1500, 15000)], "TraceItems", "TraceItems.cfg", ["InvC16"], agree=["InvAgreeC16"],
              nontrivial=lambda e: len(e.get("vars", [])) > 0, key=lambda e: json.dumps(e.get("abs"), sort_keys=True))
     ck.assumptions.append(ITEMS_NOTE)
